@@ -11,7 +11,9 @@ the (6, K) argument: C, Fortran / transposed, strided view, read-only) with the 
 after every call.  OutputsImmutable (action property): what a completed call returned never
 changes - the replay keeps every returned array WITHOUT copying it and re-reads all of them
 after the last call of the behaviour (no aliasing with later results, arguments or internal
-buffers).  The named deviation StaleThrust (finite_thrust only reset when events are
+buffers).  NeighbourCall: a call on the same object that repeats the previous call's start time
+with a neighbouring start state (replayed with the offset scaled down to 1e-7 .. 1 lattice units,
+the law being linear): a result depends on (t0, t1, x0, events) only, never on earlier calls.  The named deviation StaleThrust (finite_thrust only reset when events are
 passed) is refuted by TLC.  The behaviours are replayed into the real code:
 
 (a) EXACT  the real Celestial.propagate / propagateBulk driven by `ExactLaw`: every output of every
@@ -63,7 +65,7 @@ INV03 = ("ExactAtBoundaries", "Semigroup", "BulkConsistent", "StepwiseEqualsRun"
 
 def spec_cfg(ctx: Ctx) -> dict:
     base = dict(Mode='"calls"', BurnChoice='"open"', Kinds="KindsOne", MaxInterior=3, StepLens="{1}", MaxSteps=1,
-                CallerMayDrop="TRUE")
+                CallerMayDrop="TRUE", CallerMayNeighbour="TRUE")
     if ctx.quick:
         return dict(base, Horizon=5, MaxCalls=2, Ks="{1, 2, 3, 4}", Laws="LawsOne")
     return dict(base, Horizon=6, MaxCalls=3, Ks="{1, 2, 3, 4}", Laws="LawsQuick")
@@ -74,8 +76,17 @@ def dropped(b) -> bool:
     return b.get("dropAt", 10 ** 6) <= b["hor"]
 
 
+def has_neighbour_call(b) -> bool:
+    """The behaviour contains a call that repeats the previous call's start time with a neighbouring state (NeighbourCall)."""
+    return any(c.get("base") for c in b["hist"])
+
+
 def structure(b) -> tuple:
-    return (tuple((c["kind"], len(c["times"]) - 2) for c in b["hist"]), b["K"], b["burn"]["kind"] != "none", dropped(b))
+    return (tuple((c["kind"], len(c["times"]) - 2) for c in b["hist"]), b["K"], b["burn"]["kind"] != "none", dropped(b),
+            has_neighbour_call(b))
+
+
+NB_EPS = (1.0e-7, 1.0e-5, 1.0, 1.0e-3)    # size of the neighbour offset in lattice units (the law is linear in the state)
 
 
 def passed_events(call, ci: int, events):
@@ -133,7 +144,7 @@ def crash_signature(prefix: str, call_kind: str, ex: Exception) -> str:
     return f"{prefix}:exception:{type(ex).__name__}"
 
 
-def exact_one(b, method: str, tau: float, rng: random.Random, tag: str = "exact-law"):
+def exact_one(b, method: str, tau: float, rng: random.Random, tag: str = "exact-law", nb_eps: float = 1.0):
     v0, g, a = b["law"]
     burn = b["burn"]
     emb = K.Embed(rng, tau, ALPHA)
@@ -142,11 +153,21 @@ def exact_one(b, method: str, tau: float, rng: random.Random, tag: str = "exact-
     if burn["kind"] != "none":
         events.append(emb.thrust_event(burn["kind"], a, burn["ts"] * tau, burn["te"] * tau))
     kk = b["K"]
-    x = emb.batch(b["X0"])
+    x = emb.batch(b["hist"][0].get("x0", b["X0"]))
     outputs = 0
     kept = []
     for ci, call in enumerate(b["hist"]):
         times = [t * tau for t in call["times"]]
+        want_outs = call["outs"]
+        if call.get("base"):
+            # neighbour call (spec action NeighbourCall): same start time as the previous call, on the same object, start state
+            # = previous start state + eps * (one lattice unit).  The law is linear, so the exact answer is
+            # base + eps * (neighbour - base), both numbers from the spec; a scaled-down eps puts the neighbour within
+            # numpy.allclose of the previous state.  Only the last call of a behaviour is scaled (later calls continue it).
+            eps = nb_eps if ci == len(b["hist"]) - 1 else 1.0
+            prev = emb.batch(b["hist"][ci - 1]["x0"])
+            x = prev + eps * (emb.batch(call["x0"]) - prev)
+            want_outs = [[[bq + eps * (oq - bq) for oq, bq in zip(o, bs)] for o, bs in zip(out_t, call["base"])] for out_t in call["outs"]]
         arg = as_layout(x, call.get("layout", "C"))
         arg_before = arg.copy()
         try:
@@ -169,12 +190,20 @@ def exact_one(b, method: str, tau: float, rng: random.Random, tag: str = "exact-
         except Exception as ex:  # noqa: BLE001 - the real code raised on a legal call
             return (crash_signature(tag, call["kind"], ex), f"{call['kind']} call over ticks {call['times']} (K={kk}, burn "
                     f"[{burn['ts']},{burn['te']}) ticks of {tau} s) raised {type(ex).__name__}: {ex}", {"call": ci}), outputs
-        for j, (got, want) in enumerate(zip(outs, call["outs"])):
+        for j, (got, want) in enumerate(zip(outs, want_outs)):
             for k in range(kk):
                 p2, vv, off = emb.project(got[:, k])
                 outputs += 1
                 tol_p = max(1e-9 * max(1.0, abs(want[k][0])), 8 * np.spacing(emb.R0 + abs(want[k][0]) * emb.pu) / emb.pu)
                 if off > 1e-6 or not K.close(vv, want[k][1]) or abs(p2 - want[k][0]) > tol_p:
+                    if call.get("base"):
+                        bs = call["base"][k]
+                        same = K.close(vv, bs[1]) and abs(p2 - bs[0]) <= tol_p
+                        return (f"{tag}:neighbour-call-depends-on-previous-call",
+                                f"propagate over ticks {call['times']} right after a call over {b['hist'][ci - 1]['times']} on the same "
+                                f"dynamics object, start state {eps:g} lattice unit(s) away from that call's: column {k + 1} is (2p, v) = "
+                                f"({p2:.9f}, {vv:.9f}), spec says ({want[k][0]:.9f}, {want[k][1]:.9f})"
+                                + ("; the result is the PREVIOUS state's trajectory" if same else ""), {"call": ci, "column": k, "eps": eps}), outputs
                     sig = f"{tag}:propagate-state" if call["kind"] == "single" else f"{tag}:bulk-output"
                     return (sig, f"{call['kind']} call over ticks {call['times']} (K={kk}, burn [{burn['ts']},{burn['te']})"
                             f"{', events passed' if call.get('q', 1) > 0 else ', NO events passed (same dynamics object)'}"
@@ -204,7 +233,7 @@ def exact_replay(ctx: Ctx, behs, rng: random.Random, tag: str = "exact-law") -> 
             tau = TAUS[(i // 2) % len(TAUS)]
             seed = rng.getrandbits(32)
             try:
-                bad, n_out = exact_one(b, method, tau, random.Random(seed), tag)
+                bad, n_out = exact_one(b, method, tau, random.Random(seed), tag, NB_EPS[(i // 3) % len(NB_EPS)])
             except tlc.MachineryError:
                 raise
             K.flush_events()
@@ -298,7 +327,8 @@ def first_integrals(x):
     return 0.5 * (v @ v) - K.MU / np.linalg.norm(r), np.cross(r, v)
 
 
-def real_one(ctx: Ctx, b, model: str, method: str, tight: bool, tick: float, rng: random.Random, stats: dict, traces: list):
+def real_one(ctx: Ctx, b, model: str, method: str, tight: bool, tick: float, rng: random.Random, stats: dict, traces: list,
+             cluster: bool = False):
     """Replay one behaviour through real dynamics; relations against separate unsplit single-column calls."""
     from resonaate.dynamics.integration_events.finite_thrust import ScheduledFiniteBurn, eciBurn
     from resonaate.physics.orbits.kepler import solveKeplerProblemUniversal
@@ -307,6 +337,14 @@ def real_one(ctx: Ctx, b, model: str, method: str, tight: bool, tick: float, rng
     kk = b["K"]
     patience = 150.0 if ctx.quick else 1800.0      # generous: the machine may be loaded; quick durations take seconds
     orbits = [random_orbit(rng) for _ in range(kk)]
+    if cluster:
+        # a tight batch: the members are 1 mm .. 10 m and 1e-6 .. 1e-3 m/s from the first one (around numpy.allclose's default
+        # tolerance).  The separate single-column reference calls are made one after the other on the SAME dynamics object,
+        # as a user would: a result that depends on the previous call (a cache keyed on "close enough") shows here.
+        crng = random.Random(rng.getrandbits(32))
+        for k in range(1, kk):
+            off = np.concatenate((10.0 ** crng.uniform(-6, -2) * K.triad(crng)[0], 10.0 ** crng.uniform(-9, -6) * K.triad(crng)[0]))
+            orbits[k] = (dict(orbits[0][0], offset_km_kmps=off.tolist()), orbits[0][1] + off, orbits[0][2])
     x0 = np.stack([o[1] for o in orbits], axis=1)
     # start epoch: anywhere in 2019-2020, or (half of the cases) a few hours after a calendar boundary, so that the
     # epoch-shift twin (start date moved back by up to 3 days) starts on the other side of it
@@ -338,7 +376,7 @@ def real_one(ctx: Ctx, b, model: str, method: str, tight: bool, tick: float, rng
         return [ScheduledFiniteBurn(ScenarioTime(b["burn"]["ts"] * tick + offset), ScenarioTime(1.0e9),
                                     partial(eciBurn, acc_vector=BURN_ACC * burn_dir), 1)]
     desc = {"part": "real", "model": model, "method": method, "tight": tight, "tick_s": tick, "K": kk, "jd0": jd0,
-            "near_calendar_boundary": boundary is not None, "rich": rich, "srp": srp, "drop_tick": drop,
+            "near_calendar_boundary": boundary is not None, "rich": rich, "srp": srp, "drop_tick": drop, "tight_cluster": cluster,
             "burn_tick": b["burn"]["ts"], "calls": [[c["kind"], c["times"], c.get("q", 1)] for c in b["hist"]],
             "orbits": [o[0] for o in orbits]}
     ref_cache: dict = {}
@@ -532,6 +570,55 @@ def epoch_boundary_stratum(ctx: Ctx, rng: random.Random, stats: dict):
                                                                         "method": method, "orbit": el, "span_s": span})
 
 
+def fractional_second_stratum(ctx: Ctx, rng: random.Random, stats: dict):
+    """Epoch-split twins whose scenario start has a FRACTIONAL second: (start = D + f, t0 = 0) against (start = D, t0 = f)
+    and (thorough) (start = D - 1 s, t0 = 1 + f), D a whole second.  Perturbed dynamics with tesseral terms (4 x 4), rtol 1e-13.
+    Arc lengths: an Earth-fixed frame that is off by 0.4 s of rotation (2.9e-5 rad) displaces a LEO by about 5e-5 km after
+    3600 s (growing with the square of the arc); the tolerance there is 3e-7 * (1 + revolutions)^2 = 8e-7 km, and 4.4e-7 km
+    at 1200 s where the effect is about 6e-6 km - so arcs of 1200 s and more decide it with a factor >= 10."""
+    from datetime import datetime, timedelta
+    from resonaate.physics.time.stardate import datetimeToJulianDate
+    cases = [(0.400, "DOP853", 3600.0), (0.500, "RK45", 1200.0), (0.600, "DOP853", 2400.0)]
+    if not ctx.quick:
+        cases += [(0.999, "RK45", 3600.0), (0.250, "DOP853", 7200.0), (0.750, "RK45", 2400.0), (0.400, "RK45", 3600.0)]
+    out = {"cases": 0, "max_ratio": 0.0}
+    for frac, method, span in cases:
+        whole = datetime(2020, 6, 1) + timedelta(days=rng.randrange(0, 400), seconds=rng.randrange(0, 86400))
+        el, x0, period = random_orbit(rng)
+        while el["a"] > 8000.0 or el["e"] > 0.05:        # low orbits feel the tesseral terms most
+            el, x0, period = random_orbit(rng)
+        twins = [(whole + timedelta(seconds=frac), 0.0), (whole, frac)]
+        if not ctx.quick:
+            twins.append((whole - timedelta(seconds=1), 1.0 + frac))
+        ys = []
+        for start, t0 in twins:
+            dyn = make_dyn("sp", method, True, float(datetimeToJulianDate(start)), False)
+            try:
+                with guard(900.0):
+                    ys.append(np.asarray(dyn.propagate(t0, t0 + span, x0.copy()), dtype=float))
+            except Hang:
+                raise tlc.MachineryError("fractional-second stratum: propagation without events did not return in 900 s")
+        sc = (1.0 + span / period) ** 2
+        out["cases"] += 1
+        stats["epoch_shift_checks"] += len(twins) - 1
+        ctx.case(("fractional-start", frac, method, span, round(el["a"])), nontrivial=True)
+        for (start, t0), y in list(zip(twins, ys))[1:]:
+            dr, dv = np.abs(ys[0] - y)[:3].max(), np.abs(ys[0] - y)[3:].max()
+            out["max_ratio"] = max(out["max_ratio"], dr / (BASE_R * sc), dv / (BASE_V * sc))
+            if dr > BASE_R * sc or dv > BASE_V * sc:
+                sig = "real:sp:epoch-split-with-fractional-second-start"
+                stats["violations"] += 1
+                stats["by_signature"][sig] = stats["by_signature"].get(sig, 0) + 1
+                ctx.violation(sig, f"(b) real sp/{method} (rtol 1e-13): {span:g} s from the epoch {twins[0][0].isoformat()} written as "
+                              f"(start {twins[0][0].isoformat()}, t0 = 0) and as (start {start.isoformat()}, t0 = {t0} s) differ by "
+                              f"{dr:.3g} km / {dv:.3g} km/s (tolerance {BASE_R * sc:.2g} / {BASE_V * sc:.2g}; a = {el['a']:.0f} km)",
+                              {"part": "fractional-start", "start": twins[0][0].isoformat(), "twin_start": start.isoformat(),
+                               "t0_s": t0, "span_s": span, "method": method, "orbit": el})
+                break
+    ctx.traces_validated += out["cases"]
+    return out
+
+
 def shadow_stratum(ctx: Ctx, rng: random.Random, stats: dict):
     """BulkConsistent / batch-vs-single with the columns in DIFFERENT force regimes: solar radiation pressure on, one
     column sunlit for the whole call, another inside the Earth's umbra for the whole call (a low circular orbit in a plane
@@ -617,7 +704,7 @@ def real_replay(ctx: Ctx, behs, rng: random.Random):
     traces: list = []
     groups: dict = {}
     for b in behs:
-        if len(b["hist"]) > 1 or b["K"] > 1 or b["hist"][0]["kind"] == "bulk":
+        if (len(b["hist"]) > 1 or b["K"] > 1 or b["hist"][0]["kind"] == "bulk") and not has_neighbour_call(b):
             groups.setdefault(structure(b), []).append(b)
     keys = sorted(groups, key=repr)
     rng.shuffle(keys)
@@ -626,12 +713,24 @@ def real_replay(ctx: Ctx, behs, rng: random.Random):
     sp_ticks = (2.0, 12.0, 120.0) if ctx.quick else (2.0, 12.0, 120.0, 720.0, 2880.0)
     epoch_boundary_stratum(ctx, random.Random(rng.getrandbits(32)), stats)
     stats["shadow"] = shadow_stratum(ctx, random.Random(rng.getrandbits(32)), stats)
+    stats["fractional_second_start"] = fractional_second_stratum(ctx, random.Random(rng.getrandbits(32)), stats)
     # behaviours in which the caller drops the events while the burn is ON, through the perturbed dynamics (the only real
     # model that reads finite_thrust): a fixed share of the sample, whatever the stratified draw below picks
     live_drop = sorted((b for b in behs if dropped(b) and b["burn"]["kind"] != "none" and b["burn"]["ts"] < b["dropAt"] and b["K"] <= 2),
                        key=lambda b: json.dumps(b, sort_keys=True))
     forced = [live_drop[rng.randrange(len(live_drop))] for _ in range((4 if ctx.quick else 16) if live_drop else 0)]
     stats["dropped_with_thrust_on_sp"] = len(forced)
+    # tight clusters: event-free batches (K >= 2) whose members are neighbours, references one after the other on one object
+    calm = sorted((b for b in behs if b["burn"]["kind"] == "none" and b["K"] >= 2 and not has_neighbour_call(b)),
+                  key=lambda b: json.dumps(b, sort_keys=True))
+    crng = random.Random(rng.getrandbits(32))
+    for ci in range((4 if ctx.quick else 40) if calm else 0):
+        b = calm[crng.randrange(len(calm))]
+        model = "sp" if ci % 4 == 3 and b["K"] <= 2 else "tb"
+        real_one(ctx, b, model, ("RK45", "DOP853")[ci % 2], True, (120.0, 12.0, 720.0)[ci % 3] if model == "tb" else 60.0,
+                 random.Random(crng.getrandbits(32)), stats, traces, cluster=True)
+        K.flush_events()
+        stats["tight_clusters"] = stats.get("tight_clusters", 0) + 1
     for i in range(len(forced) + n_tb + n_sp):
         forced_b = forced[i] if i < len(forced) else None
         i -= len(forced)
@@ -721,7 +820,15 @@ def validate_traces(ctx: Ctx, traces: list) -> dict:
 
 # ------------------------------------------------------------------ entry points
 def run(ctx: Ctx):
+    import time
     rng = random.Random(ctx.seed * 7907 + 3)
+    t_phase = [time.time()]
+    phases: dict = {}
+
+    def lap(name):
+        phases[name] = round(time.time() - t_phase[0], 1)
+        t_phase[0] = time.time()
+    ctx.extra["phase_seconds"] = phases
     ctx.rule = ("TLC enumerates every behaviour of Kinematics.tla (Mode calls): call sequences (single / bulk with 0-3 interior output "
                 "times) tiling [0, H], batch sizes 1-4, no event or an open-ended burn starting at every interior tick, events passed "
                 "in every call or dropped (None / []) from any call boundary on. (a) all "
@@ -729,7 +836,8 @@ def run(ctx: Ctx):
                 "SpecialPerturbations x RK45 / DOP853 x (rtol 1e-13 | shipped tolerances), seeded orbits a in [6700, 70000] km "
                 "log-uniform, e <= 0.7, any inclination incl. 0/90/180, tick 2 s .. 4320 s (17280 s in thorough: a day). "
                 "Fixed strata: 6 calendar boundaries (epoch-shift twin), 4 (thorough 12) sunlit/umbra batches with SRP on, 4 (16) "
-                "dropped-while-thrusting behaviours through SpecialPerturbations. Non-trivial = more than one call, a batch, or a bulk call.")
+                "dropped-while-thrusting behaviours through SpecialPerturbations, 3 (7) fractional-second epoch splits, 4 (40) tight "
+                "clusters; neighbour calls on the exact law. Non-trivial = more than one call, a batch, or a bulk call.")
     ctx.assumptions = [
         "REDUCED STRENGTH: for real dynamics the comparisons are relations between implementation runs (and closed-form Kepler for "
         "two-body); TLC supplies the behaviours, the exact-law oracle and validates the conservation traces",
@@ -755,34 +863,47 @@ def run(ctx: Ctx):
         "the spec; the real replay rotates the four layouts over its K >= 2 behaviours",
         "a zero-length grid propagateBulk([t0, t0], x) is outside the quantifier (durations from seconds) but must not return "
         "invented states: raising like propagate(t0, t0) or returning the initial state are both accepted",
+        "separate single-column reference calls are made one after the other on the SAME dynamics object; a fixed share of the real "
+        "batches are tight clusters (members 1 mm .. 10 m, 1e-6 .. 1e-3 m/s from the first: around numpy.allclose's tolerance); the "
+        "exact law replays the spec's neighbour calls with the offset scaled to 1e-7 .. 1 lattice units",
+        "epoch-split twins with a fractional-second start (x.400, x.500, x.600; thorough also .999, .250, .750) against a whole-second "
+        "start with fractional t0: arcs of 1200 .. 3600 s (7200 s thorough), where 0.4 s of Earth rotation shows 10 x above the "
+        "tolerance 3e-7 km (1 + revolutions)^2; start dates through resonaate's datetimeToJulianDate (a Julian date resolves 4e-5 s)",
         "accuracy of perturbed propagation against an external truth is not decided",
     ]
     res, behs = K.run_spec(ctx, "calls", "Kinematics.tla Mode=calls: all call sequences/batches/grids; C03 invariants + behaviours",
                            invs=INV03, **spec_cfg(ctx))
     small = dict(invs=INV03, Mode='"calls"', Horizon=5, MaxCalls=2, Ks="{1}", MaxInterior=1, Laws="LawsOne", Kinds="KindsOne",
-                 StepLens="{1}", MaxSteps=1, CallerMayDrop="TRUE")
+                 StepLens="{1}", MaxSteps=1, CallerMayDrop="TRUE", CallerMayNeighbour="TRUE")
     # spec-level: closed burns too (Semigroup with an end root), and the as-coded deviations break composability
     res2, closed = K.run_spec(ctx, "calls_closed", "Kinematics.tla Mode=calls with closed and open burns (Semigroup with an end root)",
-                              emit="BEHC", BurnChoice='"both"', **{**small, "CallerMayDrop": "FALSE"})
+                              emit="BEHC", BurnChoice='"both"', **{**small, "CallerMayDrop": "FALSE", "CallerMayNeighbour": "FALSE"})
     closed = [b for b in closed if 0 < b["burn"]["te"] <= b["hor"]]
     refuted = K.run_as_coded(ctx, "ascoded", ("Semigroup",), BurnChoice='"both"', **small)
     refuted_stale = K.run_as_coded(ctx, "stale", ("ExactAtBoundaries",), deviation="StaleThrust", BurnChoice='"both"', **small)
     cov = K.run_coverage(ctx, "cov", [a for a in K.ACTIONS if a not in ("Deliver", "PoseImp", "ApplyImpulse")], BurnChoice='"both"', **small)
+    lap("tlc")
     ctx.extra["spec_mutants_killed"] = {"EndNeedsLanding(D10)": refuted, "StaleThrust(thrust survives a call without events)": refuted_stale}
     ctx.extra["action_coverage"] = cov
     ctx.extra["behaviours"] = len(behs)
-    ctx.extra["exact"] = exact_replay(ctx, behs, rng)
+    neighbours = [b for b in behs if has_neighbour_call(b)]
+    ctx.extra["exact"] = exact_replay(ctx, [b for b in behs if not has_neighbour_call(b)], rng)
+    # neighbour calls (same start time, neighbouring start state, same dynamics object): every third one in quick
+    ctx.extra["exact_neighbour_calls"] = exact_replay(ctx, neighbours[::3 if ctx.quick else 1], rng)
     # closed burns through propagate/propagateBulk (two roots inside one call): own signatures, because on a tree with
     # defect D10 (C15) they fail for that reason
     ctx.extra["exact_closed_burn"] = exact_replay(ctx, closed, rng, tag="exact-law:closed-burn")
     # the memory layout of the (6, K) argument is part of the posed call (spec variable `layout`): batches only
     _, layouts = K.run_spec(ctx, "layouts", "Kinematics.tla Mode=calls, every memory layout of the state argument (K >= 2)",
                             invs=INV03, emit="BEHL", **dict(spec_cfg(ctx), Horizon=3 if ctx.quick else 4, MaxInterior=1, MaxCalls=2,
-                                                            Ks="{2, 3}", Laws="LawsOne", Layouts="LayoutsAll", CallerMayDrop="FALSE"))
+                                                            Ks="{2, 3}", Laws="LawsOne", Layouts="LayoutsAll", CallerMayDrop="FALSE",
+                                                            CallerMayNeighbour="FALSE"))
     ctx.extra["exact_layouts"] = exact_replay(ctx, [b for b in layouts if b["layout"] != "C"], rng, tag="exact-law:layout")
     ctx.extra["zero_length_grid"] = zero_length_grid_probe(ctx)
+    lap("exact")
     stats, traces = real_replay(ctx, behs, rng)
     ctx.extra["real"] = stats
+    lap("real")
     ctx.extra["conservation"] = validate_traces(ctx, traces) if traces else {"traces": 0}
 
 
